@@ -49,6 +49,10 @@ type Config struct {
 	// the first restart is the deployment that adds it, so sessions exist
 	// that were established without an activity stamp
 	ExpireLate bool `json:"expire_late,omitempty"`
+	// AppLoadsUser: an application middleware in front of the authboss routes
+	// loads the current user into the request context (as the sample
+	// application's data injector does)
+	AppLoadsUser bool `json:"app_loads_user,omitempty"`
 	// AppLogoutHook: the application registers an After(EventLogout) handler
 	// that answers the request itself (a redirect to a single-sign-out page)
 	AppLogoutHook bool `json:"app_logout_hook,omitempty"`
@@ -212,6 +216,7 @@ func baseConfig(r *Rng) Config {
 	c.SecondSite = r.Chance(1, 3)
 	c.OAuth2ExtraParams = r.Bool()
 	c.AppLogoutHook = r.Chance(1, 4)
+	c.AppLoadsUser = r.Chance(1, 3)
 	if r.Chance(1, 3) {
 		c.DBZoneOffset = []int{3 * 3600, -5 * 3600, 5*3600 + 45*60, 14 * 3600, -11 * 3600}[r.Intn(5)]
 	}
